@@ -48,6 +48,8 @@ type Script struct {
 	// blocks does not have to be written out in a replay file). Event offsets
 	// refer to the expanded stream.
 	Rep *Repeat `json:"repeat,omitempty"`
+	// ByteReader installs the device with an io.ByteReader method as well.
+	ByteReader bool `json:"byte_reader,omitempty"`
 	// MaxChunk > 0 cuts every fault-free read to at most MaxChunk bytes.
 	MaxChunk int `json:"max_chunk,omitempty"`
 	// Playback, when non-nil, replaces the script: the device serves exactly
@@ -113,6 +115,7 @@ type Device struct {
 	empty map[int]int // consecutive empty reads per task
 	pb    int
 	pbOff int
+	pend  map[int]error // ByteDevice: error delivered with a byte, owed to the caller's next ReadByte
 }
 
 // NewDevice returns a device at stream position 0.
@@ -233,6 +236,45 @@ func (d *Device) Read(p []byte) (int, error) {
 	d.Log = append(d.Log, Rec{Task: task, Off: d.pos, Want: want, N: n, Err: err, Data: append([]byte(nil), d.S.Stream[d.pos:d.pos+n]...)})
 	d.pos += n
 	return n, err
+}
+
+// ByteDevice is the same device with the optional io.ByteReader method: some
+// scripts install it so that an implementation with a fast path for readers
+// that can deliver single bytes (a bufio.Reader in front of the source) takes
+// it. ReadByte serves the script exactly like a one-byte Read; an error that
+// the script delivers together with the byte is handed out by the next
+// ReadByte of the same caller (as a buffered reader does), and the log shows
+// the two deliveries as they happened.
+type ByteDevice struct{ *Device }
+
+// ReadByte implements io.ByteReader.
+func (b ByteDevice) ReadByte() (byte, error) {
+	d := b.Device
+	task := d.Cur()
+	if err := d.pend[task]; err != nil {
+		delete(d.pend, task)
+		d.Log = append(d.Log, Rec{Task: task, Off: d.pos, Want: 1, N: 0, Err: err})
+		d.Fired["bytereader_deferred_error"]++
+		return 0, err
+	}
+	var p [1]byte
+	for {
+		n, err := d.Read(p[:])
+		d.Fired["bytereader_readbyte"]++
+		if n == 1 {
+			if err != nil {
+				d.Log[len(d.Log)-1].Err = nil
+				if d.pend == nil {
+					d.pend = map[int]error{}
+				}
+				d.pend[task] = err
+			}
+			return p[0], nil
+		}
+		if err != nil {
+			return 0, err
+		}
+	}
 }
 
 // Pos returns the stream position.
